@@ -416,7 +416,7 @@ func genTPPkts(t *rapid.T, label string, min int) []PktSpec {
 }
 
 func TestTransportPairs(t *testing.T) {
-	vkit.Check(t, 480, 12000, func(t *rapid.T) {
+	vkit.Check(t, 480, 4000, func(t *rapid.T) {
 		c := TPCase{Proto: rapid.SampledFrom([]string{"tcp", "websocket", "websocket", "quic", "quic", "kcp"}).Draw(t, "proto"), Peer: "real", End: "open"}
 		if c.Proto == "quic" {
 			c.Peer = rapid.SampledFrom([]string{"real", "raw-client", "raw-server"}).Draw(t, "peer")
